@@ -42,20 +42,24 @@ DISPATCH = [H(name="C19.GetReceiver.dispatch", file=F, entry="h_GetReceiver", en
               funcs=["GetReceiver"], defs=("C19_BOX=6",), kind="bounded", bound="all seven geometries; width,height <= 6", canaries=2, unwindset=("h_GetReceiver.0:5",), timeout=900,
               desc="GetReceiver over all seven non-graph geometries (symbolic geometry): the dispatch carries the helpers' contracts to the public contract (callees replaced by contracts); frame = caller's generator only")]
 
-HARNESSES = DISPATCH + mk("quick", 6, 900, 8) + mk("thorough", 12, 7200, 16)
+GRAPH = [H(name="C19.graph.links3", file="harness/c19_graph.c", entry="h_graph", funcs=["AddTopologyLink", "get_neighbor_graph", "IsNeighbor", "CountDirections", "GetReceiver"],
+           kind="bounded", bound="3 regions, at most 3 link insertions (duplicates allowed), any probabilities in [0,1], any Random() value", canaries=2,
+           unwindset=tuple([f"h_graph.{k}:6" for k in range(8)] + ["AddTopologyLink.0:5", "get_neighbor_graph.0:5", "IsNeighbor.0:10", "IsNeighbor.1:10", "IsNeighbor.2:10", "IsNeighbor.3:5", "memset.0:200"]),
+           timeout=900, mem_gb=8, flags=("--no-malloc-may-fail",), desc="graph topology built by the real AddTopologyLink (malloc assumed not to fail: AddTopologyLink does not check it): CountDirections == number of distinct links from the region; IsNeighbor == link present; DIRECTION_RANDOM returns a linked region iff one exists; fixed directions invalid")]
+HARNESSES = DISPATCH + GRAPH + mk("quick", 6, 900, 8) + mk("thorough", 12, 7200, 16)
 EXPLANATION = ("GetReceiver (with get_random_neighbor and the per-geometry helpers, mutual recursion closed by --enforce-contract-rec), "
                "CountDirections and IsNeighbor of the real topology.c are checked against relational contracts (contracts/topology.h): "
                "the fixed-direction part of the code is its own specification, and the three queries must agree with it and with each other. "
                "Random()/RandomRange() are used through their C18 contracts, so every generator output is covered; the frame clause "
                "(only the caller's generator state is assigned) is the 'function of the calling LP's generator only / rollback- and "
                "thread-safe' part. Sizes are bounded by a box (stated per harness) because of the symbolic division by the grid width: "
-               "labelled bounded, never counted as proved. TOPOLOGY_GRAPH is not covered by these harnesses.")
+               "labelled bounded, never counted as proved. TOPOLOGY_GRAPH is covered by a separate bounded harness on adjacency lists built by the real AddTopologyLink (3 regions, <= 3 insertions).")
 ASSUMPTIONS = ["topology object shaped as vInitializeTopology builds it (regions == width*height for grids, regions >= 1)",
                "from (and to) are regions of the topology; regions <= INT_MAX for a star",
-               "TOPOLOGY_GRAPH adjacency-list code not covered"]
+               "TOPOLOGY_GRAPH: 3 regions, <= 3 link insertions"]
 LEVEL_TEXT = ("Contract-based check on the real topology.c for all sources/directions/generator outputs inside a bounded size box "
               "(quick 6x6, thorough 12x12): mutual consistency of GetReceiver/IsNeighbor/CountDirections and the frame 'only the caller's generator'. "
               "Bounded in the grid size, hence category other rather than proof.")
-LEVEL_NOTE = "Trusted: CBMC; Random/RandomRange contracts from C18; sizes bounded by the stated box; graph topology not covered."
+LEVEL_NOTE = "Trusted: CBMC; Random/RandomRange contracts from C18; sizes bounded by the stated box; graph topology bounded to 3 regions / 3 insertions."
 TECHNIQUE = "CBMC function contracts (dfcc, --enforce-contract-rec) with relational specs on the real topology.c, bounded size box"
 DESIGN_REF = "DESIGN.md §4 C19"
